@@ -43,12 +43,40 @@ def split_runs(path):
             codec = line[2:]
         elif line.startswith('T '):
             stats.append('boundary ' + line[2:])
+        elif line.startswith('GB '):
+            stats.append('codecbad ' + line[3:])
         elif line.startswith('# '):
             stats.append(line[2:])
     return runs, names, codec, stats
 
 
 HEX16 = re.compile(r'[0-9a-f]{16}')
+
+
+def dbl_fraction(bits):
+    """exact value of a finite binary64 given by its bit pattern"""
+    from fractions import Fraction
+    neg, ex, man = bits >> 63, (bits >> 52) & 0x7ff, bits & ((1 << 52) - 1)
+    v = Fraction(man, 1 << 1074) if ex == 0 else Fraction((1 << 52) + man) * Fraction(2) ** (ex - 1075)
+    return -v if neg else v
+
+
+def classify_codec_mismatch(xh, printed, yh):
+    """exact (rational arithmetic): is this the known dtoa defect — the read-back double is the neighbour of x and the printed
+    decimal lies at, or at most 1/64 ulp beyond, the rounding boundary (x + y)/2 on y's side?  Anything else is a different defect."""
+    from fractions import Fraction
+    try:
+        xb, yb = int(xh, 16), int(yh, 16)
+        if abs(xb - yb) != 1 or ((xb >> 52) & 0x7ff) == 0x7ff or ((yb >> 52) & 0x7ff) == 0x7ff or printed.endswith('+junk'):
+            return 'codec:g_fmt-strtod-not-exact'
+        x, y, t = dbl_fraction(xb), dbl_fraction(yb), Fraction(printed)
+        mid, ulp = (x + y) / 2, abs(y - x)
+        beyond = (t - mid) if y > x else (mid - t)       # >= 0: on y's side of the boundary
+        if 0 <= beyond <= ulp / 64:
+            return 'codec:boundary-tie-round-trip'
+    except Exception:
+        pass
+    return 'codec:g_fmt-strtod-not-exact'
 
 
 def adjacent_doubles_only(a, b):
@@ -145,7 +173,150 @@ def build_harness(ck, gdir, ei):
     return ck.link('h_nlw2', h + objs, flags=[])
 
 
+PROBES = ('probe-intmin', 'probe-call0', 'probe-tie', 'probe-prec', 'probe-needobj', 'probe-nvars0')
+ANCHOR_FILES = ['nl-writer2/include/mp/nl-writer2.h', 'nl-writer2/include/mp/nl-writer2.hpp', 'nl-writer2/src/nl-writer2.cc',
+                'nl-writer2/src/dtoa.cc', 'nl-writer2/include/mp/nl-feeder.h', 'nl-writer2/include/mp/nl-opcodes.h',
+                'nl-writer2/include/mp/nl-header.h', 'include/mp/nl-reader.h', 'src/nl-reader.cc', 'src/expr-info.cc',
+                'src/gen-expr-info.cc', 'include/mp/common.h']
+# functions named in anchors.mechanism (demangled-name substrings)
+MECH_FUNCS = ['g_fmt', 'dtoa_r_dmgay', 'TextFormatter::apr', 'TextFormatter::nput', 'BinaryFormatter::apr', 'BinaryFormatter::nput',
+              'WriteNLHeader', 'ReadHeader', 'ReadDouble', 'GenNLOpcodesFile', 'GenExprInfoFile', 'ExprInfoFileGenerator']
+
+
+def coverage_run(ck):
+    """VERIF_COVERAGE=1: gcov line/branch coverage of the anchored files under the quick-tier input stream.
+    Writes design_notes/coverage/C03.md and design_notes/coverage/C03.json; not part of the normal tiers."""
+    import common, glob as _glob, gzip
+    cov_build = os.path.join(VERIF, 'build', 'cov_c03')
+    shutil.rmtree(cov_build, ignore_errors=True)
+    os.makedirs(cov_build)
+    saved_build = common.BUILD
+    common.BUILD = cov_build
+    try:
+        fl = ('-O0', '-g', '--coverage')
+        gdir = os.path.join(cov_build, 'gen', 'c03gen')
+        os.makedirs(os.path.join(gdir, 'mp'), exist_ok=True)
+        os.makedirs(os.path.join(cov_build, 'bin'), exist_ok=True)
+        # the table generator itself, with coverage
+        gexe = os.path.join(cov_build, 'bin', 'gen_expr_info')
+        gobj = os.path.join(cov_build, 'gen_expr_info_o')
+        os.makedirs(gobj, exist_ok=True)
+        rc, out, err = sh(['g++', '-std=c++17', '-O0', '-w', '--coverage', '-I' + os.path.join(REPO, 'include'), '-I' + os.path.join(REPO, 'src'),
+                           os.path.join(REPO, 'src', 'gen-expr-info.cc'), os.path.join(REPO, 'src', 'format.cc'),
+                           os.path.join(REPO, 'src', 'posix.cc'), '-o', gexe], cwd=gobj, timeout=600)
+        if rc != 0:
+            raise RuntimeError('coverage build of gen-expr-info failed: ' + err[-800:])
+        ei, oh = os.path.join(gdir, 'expr-info.cc'), os.path.join(gdir, 'mp', 'nl-opcodes.h')
+        sh([gexe, ei, oh], cwd=gobj, timeout=120)
+        inc = os.path.join(cov_build, 'gen', 'c03_opcodes.inc')
+        gen_lean = os.path.join(cov_build, 'OpcodesW.lean')
+        sh([sys.executable, os.path.join(VERIF, 'translators', 'gen_opcodes_c03.py'), REPO, gen_lean, inc, oh, ei], timeout=300)
+        mp_src = [os.path.join(REPO, s) for s in ck.LIBMP_SRC if not s.endswith('expr-info.cc')] + [ei]
+        objs_mp = ck.objects(mp_src, flags=fl, tag='covmp')
+        objs_w = ck.objects([os.path.join(REPO, s) for s in NLW2_SRC], flags=fl, tag='covnlw2')
+        objs_h = ck.objects([os.path.join(VERIF, 'harness', 'h_nlw2.cc')], flags=fl, extra_inc=[os.path.join(cov_build, 'gen'), gdir], tag='covc03')
+        exe = ck.link('h_nlw2_cov', objs_h + objs_mp + objs_w, flags=['--coverage'])
+        scratch = os.path.join(cov_build, 'scratch')
+        os.makedirs(scratch, exist_ok=True)
+        with open(os.path.join(cov_build, 'impl.out'), 'w') as f:
+            subprocess.run([exe, 'quick', str(ck.seed), scratch], stdout=f, stderr=subprocess.DEVNULL, timeout=3000)
+        for pr in PROBES:
+            subprocess.run([exe, 'quick', str(ck.seed), scratch, pr], stdout=subprocess.DEVNULL, stderr=subprocess.DEVNULL, timeout=600)
+        # gcov (JSON) on the TUs that contain / instantiate the anchored code
+        want = [o for o in objs_h + objs_w + objs_mp if any(k in os.path.basename(o) for k in ('h_nlw2', 'nl-writer2', 'dtoa', 'nl-reader', 'expr-info'))]
+        files = {}       # path -> {'lines': {ln: count}, 'branches': {(ln, i): count}, 'funcs': {name: (start, end, count)}}
+
+        def absorb(js):
+            for fobj in js.get('files', []):
+                path = os.path.realpath(os.path.join(js.get('current_working_directory', '.'), fobj['file']))
+                rel = None
+                for a in ANCHOR_FILES:
+                    if path == os.path.realpath(os.path.join(REPO, a)) or (a.endswith('nl-header.h') and path == os.path.realpath(os.path.join(REPO, 'include/mp/nl-header.h'))) or (a.endswith('expr-info.cc') and not a.endswith('gen-expr-info.cc') and path == os.path.realpath(ei)) \
+                            or (a.endswith('nl-opcodes.h') and path == os.path.realpath(oh)):
+                        rel = a
+                if rel is None:
+                    continue
+                d = files.setdefault(rel, {'lines': {}, 'branches': {}, 'funcs': {}})
+                for ln in fobj.get('lines', []):
+                    n = ln['line_number']
+                    d['lines'][n] = d['lines'].get(n, 0) + ln.get('count', 0)
+                    for i, b in enumerate(ln.get('branches', [])):
+                        d['branches'][(n, i)] = d['branches'].get((n, i), 0) + b.get('count', 0)
+                for fn in fobj.get('functions', []):
+                    nm = fn.get('demangled_name') or fn.get('name')
+                    key = (nm, fn.get('start_line'))
+                    old = d['funcs'].get(key, (fn.get('start_line'), fn.get('end_line'), 0))
+                    d['funcs'][key] = (fn.get('start_line'), fn.get('end_line'), old[2] + fn.get('execution_count', 0))
+        for o in want:
+            rc, out, err = sh(['gcov-12', '-b', '-c', '-j', '-t', '-m', o + '.gcda'], cwd=os.path.dirname(o), timeout=900)
+            for doc in out.split('\n'):
+                doc = doc.strip()
+                if doc.startswith('{'):
+                    try:
+                        absorb(json.loads(doc))
+                    except Exception:
+                        pass
+        rc, out, err = sh('gcov-12 -b -c -j -t -m gen_expr_info-gen-expr-info.gcda', cwd=os.path.join(cov_build, 'bin'), timeout=300)
+        for doc in out.split('\n'):
+            if doc.strip().startswith('{'):
+                try:
+                    absorb(json.loads(doc))
+                except Exception:
+                    pass
+        # report
+        rep = {'seed': ck.seed, 'tier_stream': 'quick', 'files': {}}
+        md = ['# C03 — gcov coverage of the anchored files under the quick-tier stream (VERIF_COVERAGE=1, seed %d)' % ck.seed, '',
+              '| file | lines | line cov | branches | branch cov |', '|---|---|---|---|---|']
+        tl = tc = bl = bc = 0
+        for a in ANCHOR_FILES:
+            d = files.get(a)
+            if not d:
+                md.append('| %s | - | no executable lines / not compiled into the harness | - | - |' % a)
+                rep['files'][a] = None
+                continue
+            nl, cl = len(d['lines']), sum(1 for v in d['lines'].values() if v > 0)
+            nb, cb = len(d['branches']), sum(1 for v in d['branches'].values() if v > 0)
+            tl += nl; tc += cl; bl += nb; bc += cb
+            rep['files'][a] = {'lines': nl, 'lines_hit': cl, 'branches': nb, 'branches_hit': cb}
+            md.append('| %s | %d | %.1f%% | %d | %s |' % (a, nl, 100.0 * cl / max(nl, 1), nb, ('%.1f%%' % (100.0 * cb / nb)) if nb else '-'))
+        rep['anchor_line_cov'] = round(100.0 * tc / max(tl, 1), 1)
+        rep['anchor_branch_cov'] = round(100.0 * bc / max(bl, 1), 1)
+        md += ['', '**all anchored files: line %.1f%% (%d/%d), branch %.1f%% (%d/%d)**' % (rep['anchor_line_cov'], tc, tl, rep['anchor_branch_cov'], bc, bl), '']
+        # mechanisms
+        md += ['## functions named in anchors.mechanism', '', '| function | file | executed | uncovered lines | uncovered branches (line:idx) |', '|---|---|---|---|---|']
+        rep['mechanism'] = {}
+        for a, d in files.items():
+            for (nm, st), (s0, e0, cnt) in sorted(d['funcs'].items(), key=lambda kv: (kv[1][0] or 0)):
+                if not any(m in nm for m in MECH_FUNCS):
+                    continue
+                ul = sorted(n for n, v in d['lines'].items() if s0 <= n <= e0 and v == 0)
+                ub = sorted('%d:%d' % k for k, v in d['branches'].items() if s0 <= k[0] <= e0 and v == 0)
+                nbr = sum(1 for k in d['branches'] if s0 <= k[0] <= e0)
+                nln = sum(1 for n in d['lines'] if s0 <= n <= e0)
+                rep['mechanism']['%s @%s:%s' % (nm[:80], a, s0)] = {'executed': cnt, 'lines': nln, 'uncovered_lines': ul, 'branches': nbr, 'uncovered_branches': len(ub)}
+                md.append('| `%s` | %s:%s | %d | %d of %d: %s | %d of %d: %s |' % (nm[:90].replace('|', '\\|'), os.path.basename(a), s0, cnt, len(ul), nln,
+                                                                        ' '.join(map(str, ul[:60])) + (' …' if len(ul) > 60 else ''), len(ub), nbr, ' '.join(ub[:40]) + (' …' if len(ub) > 40 else '')))
+        md += ['', '## functions never executed (anchored files)', '']
+        rep['never_executed'] = {}
+        for a, d in files.items():
+            never = sorted({nm for (nm, st), (s0, e0, cnt) in d['funcs'].items() if cnt == 0 and
+                            not any(c2 > 0 for (n2, s2), (_, _, c2) in d['funcs'].items() if n2 == nm)})
+            rep['never_executed'][a] = never
+            md.append('* **%s** (%d): %s' % (a, len(never), '; '.join('`%s`' % n[:100] for n in never[:200])))
+        os.makedirs(os.path.join(VERIF, 'design_notes', 'coverage'), exist_ok=True)
+        open(os.path.join(VERIF, 'design_notes', 'coverage', 'C03.measured.md'), 'w').write('\n'.join(md) + '\n')
+        json.dump(rep, open(os.path.join(VERIF, 'design_notes', 'coverage', 'C03.json'), 'w'), indent=1)
+        ck.log('coverage: anchored files line %.1f%% branch %.1f%% -> design_notes/coverage/C03.measured.md' % (rep['anchor_line_cov'], rep['anchor_branch_cov']))
+        ck.cov.update({'evaluations': 0, 'distinct_nontrivial': 0, 'rule': 'coverage measurement run', 'obligations': 0, 'discharged': 0,
+                       'checker_cmd': 'VERIF_COVERAGE=1 ./check C03'})
+        ck.sample('coverage run')
+    finally:
+        common.BUILD = saved_build
+
+
 def run(ck):
+    if os.environ.get('VERIF_COVERAGE') == '1':
+        return coverage_run(ck)
     gen = os.path.join(LEAN, 'MpVerif', 'Gen', 'OpcodesW.lean')
     inc = os.path.join(BUILD, 'gen', 'c03_opcodes.inc')
     stale = []
@@ -192,7 +363,7 @@ def run(ck):
             p = subprocess.run([exe, ck.tier, str(ck.seed), scratch], stdout=f, stderr=subprocess.PIPE, text=True, timeout=3000)
         main_rc, main_err = p.returncode, p.stderr[-2000:]
         probes = {}
-        for pr in ('probe-intmin', 'probe-call0', 'probe-tie'):
+        for pr in PROBES:
             po = os.path.join(BUILD, 'c03.%s.out' % pr)
             with open(po, 'w') as f:
                 q = subprocess.run([exe, ck.tier, str(ck.seed), scratch, pr], stdout=f, stderr=subprocess.PIPE, text=True, timeout=600)
@@ -239,8 +410,13 @@ def run(ck):
                 subprocess.run([drv], stdin=fi, stdout=fo, check=True, timeout=3000)
             model = []
             cur = None
+            model_arms = {}
             for line in open(mo, errors='replace'):
                 line = line.rstrip('\n')
+                if line.startswith('#stat '):
+                    k_, v_ = line[6:].rsplit(' ', 1)
+                    model_arms[k_] = int(v_)
+                    continue
                 if line.startswith('== '):
                     cur = {'head': line, 'L': [], 'agree': None}
                     model.append(cur)
@@ -338,6 +514,25 @@ def run(ck):
     ck.cov['runs_outside_feeder_contract'] = n_not_wf
     ck.cov['names_files_checked'] = len(names)
     ck.cov['number_codec_TEST_not_proof'] = codec
+    if model is not None:
+        expected_arms = ['tok:ch:%s' % c for c in 'CLOVFGJSrKkxdnslovfhg'] + ['tok:ch:b(fmt)', 'tok:ch:b(seg)'] + \
+            ['tok:bound-type:%d' % i for i in range(6)] + ['tok:short', 'tok:long', 'tok:dbl', 'tok:int', 'tok:name', 'tok:hollerith', 'tok:vbtol',
+             'tok:comment', 'tok:eol', 'he:null'] + \
+            ['he:' + t for t in ('n', 'v', 'ce', 's', 'b', 'u', 'bin', 'if', 'ifs', 'not', 'bl', 'rel', 'lc', 'impl', 'pl', 'call', 'va', 'sum', 'cnt', 'nof', 'nofs', 'il', 'pw')] + \
+            ['ev:' + t for t in ('header', 'func', 'isuf', 'dsuf', 'svalI', 'svalD', 'vb', 'cb', 'compl', 'x0', 'd0', 'cbeg', 'cterm', 'cend', 'acon', 'lcon',
+                                 'obj', 'csz', 'cadd', 'jbeg', 'jterm', 'gbeg', 'gterm', 'end')] + \
+            ['hdr:nlc=0', 'hdr:nlc>0', 'hdr:ncc=0', 'hdr:ncc>0', 'hdr:nopts<2', 'hdr:nopts>=2', 'hdr:flags1:arith1', 'hdr:flags0:arith0', 'hdr:flags1:arith0',
+             'opt:binary=true', 'opt:binary=false', 'opt:comments=true', 'opt:comments=false', 'opt:boundsFirst=true', 'opt:boundsFirst=false',
+             'opt:colSizes=0', 'opt:colSizes=1', 'opt:colSizes=2', 'reader:flags=0', 'reader:flags=1', 'model:wf=true', 'model:wf=false']
+        ck.cov['model_arms_exercised'] = model_arms
+        ck.cov['model_arms_never_taken'] = [a for a in expected_arms if model_arms.get(a, 0) == 0]
+    try:
+        cj = json.load(open(os.path.join(VERIF, 'design_notes', 'coverage', 'C03.json')))
+        ck.cov['anchor_line_cov'] = cj['anchor_line_cov']
+        ck.cov['anchor_branch_cov'] = cj['anchor_branch_cov']
+        ck.cov['anchor_cov_note'] = 'gcov of the 12 anchored files under the quick-tier stream, measured by the last VERIF_COVERAGE=1 run (design_notes/coverage/C03.md); not recomputed here'
+    except Exception:
+        pass
     ck.cov['correspondence'] = {'runs_compared_model_vs_impl': n_runs if model is not None else 0,
                                 'disagreements': sum(len(v) for v in corr_bad.values())}
     ck.log('runs=%d models=%d events=%d text/binary pairs=%d quirk-runs=%d codec[%s]' % (n_runs, n_models, n_lines, n_tb, n_quirk, codec))
@@ -365,26 +560,35 @@ def run(ck):
                          replay_obj(r0, {'first_difference(index, text, binary)': dd}))
     for n in names_bad:
         ck.add_violation('names:differ', 'names file written by the writer is read back differently: %s' % n, {'line': n})
-    if codec:
-        m = re.match(r'tested=(\d+) bad=(\d+) first=(.*)', codec)
-        if m and int(m.group(2)) > 0:
-            ck.add_violation('codec:g_fmt-strtod-not-exact', 'g_fmt -> strtod does not return the same double: %s (%s of %s)' %
-                             (m.group(3), m.group(2), m.group(1)), {'first': m.group(3)})
     # constructed boundary cases of the number codec
     bline = next((s for s in stats if s.startswith('boundary ')), None)
     ck.cov['number_codec_boundary_TEST_not_proof'] = bline
-    if bline:
-        m = re.match(r'boundary tested=(\d+) bad=(\d+) ties=(\d+) first=(.*)', bline)
-        if m and int(m.group(2)) > 0:
-            f = m.group(4).split()
-            adj = len(f) >= 3 and abs(int(f[0], 16) - int(f[2], 16)) == 1
-            ck.add_violation('codec:boundary-tie-round-trip' if adj else 'codec:g_fmt-strtod-not-exact',
-                             'g_fmt prints a decimal on/beyond the rounding boundary x + ulp/2 and strtod reads back the neighbouring double: '
-                             'x=%s printed "%s" read back %s (%s of %s constructed boundary cases, %s of them exact ties)' %
-                             (f[0], f[1] if len(f) > 1 else '?', f[2] if len(f) > 2 else '?', m.group(2), m.group(1), m.group(3)),
-                             {'double_bits': f[0], 'printed': f[1] if len(f) > 1 else None, 'read_back_bits': f[2] if len(f) > 2 else None,
-                              'fixed_example': '4611686018999999488 (43d0000000088857) -> "4.611686019e+18" -> 4611686019000000512 (43d0000000088858)',
-                              'how': 'DAVID_GAY_GFMT::g_fmt(buf, x, 0) then strtod(buf); or h_nlw2 quick 1 <dir> probe-tie (whole file through WriteNLFile/ReadNLFile)'})
+    # every reported codec mismatch (random and constructed stream) is classified exactly
+    by_sig = collections.OrderedDict()
+    for s_ in stats:
+        if s_.startswith('codecbad '):
+            f = s_.split()
+            if len(f) >= 5:
+                by_sig.setdefault(classify_codec_mismatch(f[2], f[3], f[4]), []).append((f[1], f[2], f[3], f[4]))
+    n_reported = sum(len(v) for v in by_sig.values())
+    n_bad_total = 0
+    for ln in (codec, bline and bline[len('boundary '):]):
+        mm_ = re.search(r'bad=(\d+)', ln or '')
+        n_bad_total += int(mm_.group(1)) if mm_ else 0
+    nonadj = re.search(r'nonadjacent=(\d+)', bline or '')
+    ck.cov['codec_mismatches'] = {'total': n_bad_total, 'classified_exactly': n_reported, 'by_signature': {k: len(v) for k, v in by_sig.items()}}
+    for sig, lst in by_sig.items():
+        stream, xh, printed, yh = lst[0]
+        ck.add_violation(sig, ('g_fmt prints a decimal on/just beyond the rounding boundary of x and strtod reads back the neighbouring double'
+                               if sig == 'codec:boundary-tie-round-trip' else 'g_fmt -> strtod does not return the same double')
+                         + ': x=%s printed "%s" read back %s (%d such cases, first from the %s stream; %d mismatches in %s)' %
+                         (xh, printed, yh, len(lst), stream, n_bad_total, (codec or '') + ' | ' + (bline or '')),
+                         {'double_bits': xh, 'printed': printed, 'read_back_bits': yh, 'stream': stream, 'more': lst[1:6],
+                          'fixed_example': '4611686018999999488 (43d0000000088857) -> "4.611686019e+18" -> 4611686019000000512 (43d0000000088858)',
+                          'how': 'DAVID_GAY_GFMT::g_fmt(buf, x, 0) then strtod(buf); or h_nlw2 quick 1 <dir> probe-tie (whole file through WriteNLFile/ReadNLFile)'})
+    if n_reported < n_bad_total and nonadj and int(nonadj.group(1)) > 0:
+        ck.add_violation('codec:g_fmt-strtod-not-exact', '%s codec mismatches beyond the %d classified ones are not one-ulp neighbours' %
+                         (nonadj.group(1), n_reported), {'boundary_line': bline}, found_input=False)
     rcp, errp, po = probes['probe-tie']
     pruns, _, _, _ = split_runs(po)
     for r in pruns:
@@ -394,6 +598,27 @@ def run(ck):
                              '4611686019000000512: fed "%s", reader reported "%s"' % (d[2], d[1]), replay_obj(r, {'probe': 'probe-tie'}))
     if rcp != 0:
         ck.add_violation('codec:probe-tie-abort', 'probe-tie aborted: %s' % errp[-400:], {'stderr': errp})
+    # oracle-only families (own processes): OutputPrecision p, handler with NeedObj filter, model without variables
+    for pr, what in (('probe-prec', 'OutputPrecision()=p: reader must report the correctly rounded p-digit value (libc reference)'),
+                     ('probe-needobj', 'handler that needs one objective only: skipped objectives must vanish, everything else unchanged')):
+        rcp, errp, po = probes[pr]
+        pruns, _, _, _ = split_runs(po)
+        ck.cov[pr.replace('-', '_') + '_runs'] = len(pruns)
+        nb = 0
+        for r in pruns:
+            X = reorder_bounds_first(r['X']) if r['run'].split()[5] == '1' else r['X']
+            d = first_diff([nz(l) for l in r['I']], [nz(l) for l in X])
+            if d:
+                nb += 1
+                ck.add_violation('%s:%s' % (pr[6:], classify(r, d[1], d[2])), '%s: fed "%s", reader reported "%s" (%s)' %
+                                 (what, d[2][:160], d[1][:160], '; '.join(r['Icomment'])[:160]), replay_obj(r, {'probe': pr}))
+        if rcp != 0 or not pruns:
+            ck.add_violation('%s:aborted' % pr[6:], '%s aborted or produced nothing: %s' % (pr, errp[-300:]), {'stderr': errp})
+    rcp, errp, po = probes['probe-nvars0']
+    txt = open(po, errors='replace').read()
+    if '# nvars0 result=2 file=absent' not in txt:
+        ck.add_violation('nvars0:unexpected', 'a model without variables must make WriteNLFile remove the file and report NLW2_WriteNL_CantOpen; got: %s' %
+                         (re.findall(r'# nvars0.*', txt) or [errp[-200:]])[0], {'probe': 'probe-nvars0'})
     # probes (each in its own process)
     rcp, errp, po = probes['probe-intmin']
     pruns, _, _, _ = split_runs(po)
